@@ -98,3 +98,14 @@ pub fn low_amp_or_skewed(amp: u64, n: usize, reserves: &[u128], decimals: &[u8])
 pub fn kf_b_cap(n: usize, skew: f64) -> f64 {
     8.0 + (n as f64) * skew.min(2000.0) / 100.0
 }
+
+/// the fixed-point collapse regime of the swap path (KF-C19-d / KF-C03-c): tokens with >= 9
+/// decimals and a normalised pool total below 10^(2*maxdec-17) smallest units
+pub fn collapse_regime(reserves: &[u128], decimals: &[u8]) -> bool {
+    let maxd = *decimals.iter().max().unwrap() as u32;
+    if maxd < 9 {
+        return false;
+    }
+    let total: BigInt = reserves.iter().zip(decimals.iter()).map(|(r, d)| bi(*r) * crate::exact::pow10(maxd - *d as u32)).sum();
+    total < crate::exact::pow10(2 * maxd - 17)
+}
